@@ -60,12 +60,38 @@ def gen_cases(tier, seed):
             sp = r.choice('ia')
             pool = [s for s in POOL if s[0] in ('i', 'j', 'k') ] if sp == 'i' \
                 else [s for s in POOL if s[0] in ('a', 'b', 'c')]
+        if bk and r.random() < 0.3:
+            # equal spaces and equal spin multisets in upper and lower, in
+            # different positional order (diagonal space, off-diagonal spin)
+            pool = r.choice([['i', 'i:a', 'a', 'a:a', 'j', 'j:a', 'b', 'b:a'],
+                             ['i:a', 'i:b', 'a:a', 'a:b', 'j:b', 'b:a'],
+                             ['i', 'i:b', 'j:b', 'a', 'a:b', 'p', 'p:a']])
         if r.random() < 0.2:
             # same-name distinct Index objects (as wicks creates them)
             pool = r.choice([['i', "i'", 'j', "j'"], ['a', "a'", 'b'],
                              ['p', "p'", 'q'], ['i', "i'"], ['a', "a'"]])
         up = [r.choice(pool) for _ in range(nu)]
         lo = [r.choice(pool) for _ in range(nl)]
+        if bk and r.random() < 0.3:
+            # structured: upper and lower span the same (mixed) spaces and carry
+            # the same multiset of spin labels in different positional order
+            nu = nl = r.choice([2, 2, 3])
+            spaces = [r.choice('ova' if False else 'ovg') for _ in range(nu)]
+            letters = {'o': 'ijk', 'v': 'abc', 'g': 'pq'}
+            spins = [r.choice(['', 'a', 'b']) for _ in range(nu)]
+            if len(set(spins)) == 1:
+                spins[0] = 'a' if spins[0] != 'a' else ''
+            su, sl = list(spins), list(spins)
+            r.shuffle(su)
+            r.shuffle(sl)
+            perm = list(range(nu))
+            r.shuffle(perm)
+
+            def mk(sp, spin):
+                n = r.choice(letters[sp])
+                return n + (':' + spin if spin else '')
+            up = [mk(spaces[x], su[x]) for x in range(nu)]
+            lo = [mk(spaces[x], sl[x]) for x in range(nu)]
         cases.append({'id': f'C06-{tier[0]}{seed}-{k:05d}-orbit', 'kind': 'orbit',
                       'cls': cls, 'bk': bk, 'up': up, 'lo': lo,
                       'other': r.choice(POOL), 'pos': r.randrange(1 << 16)})
